@@ -16,13 +16,18 @@ pub struct AccessStructure {
     version: Version,
     // Use a hash-map to efficiently find dimensions by name.
     dimensions: HashMap<String, Dimension>,
+    // ID given to the next attribute added to the structure. IDs are never
+    // reused, even after the deletion of an attribute, otherwise a new
+    // attribute would inherit the rights of another one.
+    next_id: usize,
 }
 
 impl AccessStructure {
     pub fn new() -> Self {
         Self {
-            version: Version::V1,
+            version: Version::V2,
             dimensions: HashMap::new(),
+            next_id: 0,
         }
     }
 
@@ -107,16 +112,17 @@ impl AccessStructure {
         encryption_hint: EncryptionHint,
         after: Option<&str>,
     ) -> Result<(), Error> {
-        let cnt = self
-            .dimensions
-            .values()
-            .map(Dimension::nb_attributes)
-            .sum::<usize>();
+        let id = self.next_id;
+        let next_id = id.checked_add(1).ok_or_else(|| {
+            Error::OperationNotPermitted("no attribute ID left in the access structure".to_string())
+        })?;
 
         self.dimensions
             .get_mut(&attribute.dimension)
             .ok_or_else(|| Error::DimensionNotFound(attribute.dimension.clone()))?
-            .add_attribute(attribute.name, encryption_hint, after, cnt)?;
+            .add_attribute(attribute.name, encryption_hint, after, id)?;
+
+        self.next_id = next_id;
 
         Ok(())
     }
@@ -347,8 +353,9 @@ fn combine(
 impl Default for AccessStructure {
     fn default() -> Self {
         Self {
-            version: Version::V1,
+            version: Version::V2,
             dimensions: HashMap::new(),
+            next_id: 0,
         }
     }
 }
@@ -373,6 +380,7 @@ mod serialization {
                         to_leb128_len(l) + l + dimension.length()
                     })
                     .sum::<usize>()
+                + to_leb128_len(self.next_id)
         }
 
         fn write(&self, ser: &mut Serializer) -> Result<usize, Self::Error> {
@@ -383,12 +391,13 @@ mod serialization {
                 n += ser.write(dimension)?;
                 Ok::<_, Self::Error>(())
             })?;
+            n += ser.write_leb128_u64(self.next_id as u64)?;
             Ok(n)
         }
 
         fn read(de: &mut Deserializer) -> Result<Self, Self::Error> {
             let version = de.read_leb128_u64()?;
-            let dimensions = if version == Version::V1 as u64 {
+            let dimensions = if version == Version::V1 as u64 || version == Version::V2 as u64 {
                 (0..de.read_leb128_u64()?)
                     .map(|_| {
                         let name = String::from_utf8(de.read_vec()?)
@@ -402,9 +411,23 @@ mod serialization {
                     "unable to deserialize versions prior to V3".to_string(),
                 ))
             }?;
+            // V1 structures do not store the next ID: use the first ID greater
+            // than all those in use. In any case, the next ID cannot be lower.
+            let min_next_id = dimensions
+                .values()
+                .flat_map(Dimension::attributes)
+                .map(|a| a.get_id().saturating_add(1))
+                .max()
+                .unwrap_or_default();
+            let next_id = if version == Version::V2 as u64 {
+                <usize>::try_from(de.read_leb128_u64()?)?.max(min_next_id)
+            } else {
+                min_next_id
+            };
             Ok(Self {
-                version: Version::V1,
+                version: Version::V2,
                 dimensions,
+                next_id,
             })
         }
     }
